@@ -223,7 +223,7 @@ example : TextOK (.bin .sub (.var "x") (.bin .sub (.un .neg (.var "y")) (.bin .m
   have hz : plainWord "z".toList = true := by decide
   have hf : plainWord "f".toList = true := by decide
   have hnum : FloatParts "2.5" := ⟨['2'], ['5'], by decide, by decide, by decide, by decide, by decide⟩
-  exact ⟨hx, hy, trivial, hf, by decide, hz, hnum, trivial⟩
+  exact ⟨hx, hy, trivial, hf, hz, hnum, trivial⟩
 
 /-! ### the laws named in the property text, on the TEXTS themselves (`parseText` = lexer + `parseToks`) -/
 
